@@ -357,7 +357,15 @@ struct Layer {
 fn scaled_tolerance(x: f32, trans: &Transform) -> f32 {
     // The absolute value of the determinant is the area parallelogram
     // Take the sqrt of the area to losily convert to one dimension
-    x / trans.determinant().abs().sqrt()
+    let scale = trans.determinant().abs().sqrt();
+    if scale.is_finite() {
+        x / scale
+    } else {
+        // the f32 determinant of a very strong magnification overflows (the
+        // tolerance would come out as 0 or NaN): form it in f64
+        let det = trans.m11 as f64 * trans.m22 as f64 - trans.m12 as f64 * trans.m21 as f64;
+        (x as f64 / det.abs().sqrt()) as f32
+    }
 }
 
 
